@@ -18,11 +18,12 @@ Import ListNotations.
 Open Scope Z_scope.
 
 (* ---- values ------------------------------------------------------------------------------- *)
-(* a function value: a lambda (c_named = false) or a named function with its parameter
-   counts; c_arity is the attribute `.arity` / the declared arity of the lambda template,
+(* a function value: a lambda (c_named = false) or a named function with its parameters
+   (a count of stack items, or a name); c_arity is the attribute `.arity` / the declared arity of the lambda template,
    c_stored the attribute `.stored_arity` set by the modifiers ƒ ɖ *)
+Inductive param := PNum (n : nat) | PName (x : str).
 Record closure := mkClo {
-  c_named : bool; c_params : list nat; c_arity : Z; c_stored : option Z; c_body : list struct }.
+  c_named : bool; c_params : list param; c_arity : Z; c_stored : option Z; c_body : list struct }.
 
 Inductive value := VInt (z : Z) | VList (l : list value) | VFun (c : closure).
 
@@ -47,31 +48,33 @@ Fixpoint mapM {A B} (f : A -> option B) (l : list A) : option (list B) :=
    top_in   ctx.inputs[0] = [values, cursor]
    inner    ctx.inputs[1:], innermost scope first
    fdepth   len(ctx.function_stack); sdepth = len(ctx.stacks)
-   reg      ctx.register; vars = the VAR_<name> globals of the exec namespace
+   reg      ctx.register; vars = the VAR_<name> globals of the exec namespace;
+   locs     the VAR_<name> locals of the running function (its named parameters)
    out      everything printed so far; printed = ctx.printed *)
 Definition scope := (list value * nat)%type.
 Record state := mkSt {
-  stk : list value; ctxv : list value; top_in : scope; inner : list scope;
-  fdepth : nat; sdepth : nat; reg : value; vars : list (str * value); out : str; printed : bool }.
+  stk : list value; ctxv : list value; top_in : scope; inner : list scope; fdepth : nat; sdepth : nat; reg : value; vars : list (str * value); locs : list (str * value); out : str; printed : bool }.
 
 Definition set_stk (s : state) (x : list value) : state :=
-  mkSt x (ctxv s) (top_in s) (inner s) (fdepth s) (sdepth s) (reg s) (vars s) (out s) (printed s).
+  mkSt x (ctxv s) (top_in s) (inner s) (fdepth s) (sdepth s) (reg s) (vars s) (locs s) (out s) (printed s).
 Definition set_ctxv (s : state) (x : list value) : state :=
-  mkSt (stk s) x (top_in s) (inner s) (fdepth s) (sdepth s) (reg s) (vars s) (out s) (printed s).
+  mkSt (stk s) x (top_in s) (inner s) (fdepth s) (sdepth s) (reg s) (vars s) (locs s) (out s) (printed s).
 Definition set_top_in (s : state) (x : scope) : state :=
-  mkSt (stk s) (ctxv s) x (inner s) (fdepth s) (sdepth s) (reg s) (vars s) (out s) (printed s).
+  mkSt (stk s) (ctxv s) x (inner s) (fdepth s) (sdepth s) (reg s) (vars s) (locs s) (out s) (printed s).
 Definition set_inner (s : state) (x : list scope) : state :=
-  mkSt (stk s) (ctxv s) (top_in s) x (fdepth s) (sdepth s) (reg s) (vars s) (out s) (printed s).
+  mkSt (stk s) (ctxv s) (top_in s) x (fdepth s) (sdepth s) (reg s) (vars s) (locs s) (out s) (printed s).
 Definition set_fdepth (s : state) (x : nat) : state :=
-  mkSt (stk s) (ctxv s) (top_in s) (inner s) x (sdepth s) (reg s) (vars s) (out s) (printed s).
+  mkSt (stk s) (ctxv s) (top_in s) (inner s) x (sdepth s) (reg s) (vars s) (locs s) (out s) (printed s).
 Definition set_sdepth (s : state) (x : nat) : state :=
-  mkSt (stk s) (ctxv s) (top_in s) (inner s) (fdepth s) x (reg s) (vars s) (out s) (printed s).
+  mkSt (stk s) (ctxv s) (top_in s) (inner s) (fdepth s) x (reg s) (vars s) (locs s) (out s) (printed s).
 Definition set_reg (s : state) (x : value) : state :=
-  mkSt (stk s) (ctxv s) (top_in s) (inner s) (fdepth s) (sdepth s) x (vars s) (out s) (printed s).
+  mkSt (stk s) (ctxv s) (top_in s) (inner s) (fdepth s) (sdepth s) x (vars s) (locs s) (out s) (printed s).
 Definition set_vars (s : state) (x : list (str * value)) : state :=
-  mkSt (stk s) (ctxv s) (top_in s) (inner s) (fdepth s) (sdepth s) (reg s) x (out s) (printed s).
+  mkSt (stk s) (ctxv s) (top_in s) (inner s) (fdepth s) (sdepth s) (reg s) x (locs s) (out s) (printed s).
+Definition set_locs (s : state) (x : list (str * value)) : state :=
+  mkSt (stk s) (ctxv s) (top_in s) (inner s) (fdepth s) (sdepth s) (reg s) (vars s) x (out s) (printed s).
 Definition emit (s : state) (text : str) : state :=
-  mkSt (stk s) (ctxv s) (top_in s) (inner s) (fdepth s) (sdepth s) (reg s) (vars s) (out s ++ text) true.
+  mkSt (stk s) (ctxv s) (top_in s) (inner s) (fdepth s) (sdepth s) (reg s) (vars s) (locs s) (out s ++ text) true.
 
 Definition push (v : value) (s : state) : state := set_stk s (v :: stk s).
 
@@ -299,6 +302,15 @@ Definition lazy_ok (c : closure) (args : list value) : bool :=
 Definition app_t := closure -> list value -> state -> xres (value * state).
 Definition callstk_t := closure -> state -> xres state.
 
+(* a stable sort of (key, item) pairs by integer key (Python's sorted) *)
+Fixpoint insert_by (k : Z) (v : value) (l : list (Z * value)) : list (Z * value) :=
+  match l with
+  | [] => [(k, v)]
+  | (k', v') :: r => if k <=? k' then (k, v) :: l else (k', v') :: insert_by k v r
+  end.
+Definition sort_pairs (l : list (Z * value)) : list (Z * value) :=
+  fold_right (fun kv acc => insert_by (fst kv) (snd kv) acc) [] l.
+
 Section WithCalls.
   Variable cf : cfg.
   Variable app : app_t.
@@ -347,6 +359,19 @@ Section WithCalls.
         XOk (acc :: ys, s2)
     end.
 
+  (* sorted(iterable(vector), key=lambda x: safe_apply(function, x)): every key is computed, in
+     order, before anything is compared; integer keys only *)
+  Fixpoint key_app (c : closure) (items : list value) (s : state) : xres (list (Z * value) * state) :=
+    match items with
+    | [] => XOk ([], s)
+    | x :: r =>
+        xdo (k, s1) <- app c [x] s;
+        match k with
+        | VInt z => xdo (ks, s2) <- key_app c r s1; XOk ((z, x) :: ks, s2)
+        | _ => XErr EStuck
+        end
+    end.
+
   Definition un (f : value -> option value) (s : state) : xres state :=
     let (s1, a) := pop1 s in
     xdo r <- of_opt (f a); XOk (push r s1).
@@ -373,7 +398,7 @@ Section WithCalls.
   (* ---- the element table of the core (key = code point of the one-character element) ------------- *)
   Definition core_keys : str :=
     [43; 45; 42; 78; 8250; 8249; 100; 172; 61; 60; 62; 58; 68; 36; 95; 94; 33; 87; 119; 34; 74; 76;
-     104; 116; 102; 7768; 8721; 110; 63; 44; 8230; 77; 70; 8224; 163; 165]%N.
+     104; 116; 102; 7768; 8721; 110; 63; 44; 8230; 77; 70; 7777; 8224; 163; 165]%N.
 
   Definition elem_pure (k : N) (s : state) : xres state :=
     if (k =? 43)%N then ( bin (vec2 Z.add) s                                              (* + add *))
@@ -506,6 +531,18 @@ Section WithCalls.
         | _, _ => XErr EStuck
         end)
     else
+    if (k =? 7777)%N then (                                                               (* ṡ sort_by *)
+        let (s1, rhs) := pop1 s in let (s2, lhs) := pop1 s1 in
+        match lhs, rhs with
+        | VFun c, _ =>
+            xdo items <- of_opt (iter_digits rhs);
+            xdo (ks, s3) <- key_app c items s2; XOk (push (VList (map snd (sort_pairs ks))) s3)
+        | _, VFun c =>
+            xdo items <- of_opt (iter_digits lhs);
+            xdo (ks, s3) <- key_app c items s2; XOk (push (VList (map snd (sort_pairs ks))) s3)
+        | _, _ => XErr EStuck
+        end)
+    else
     if (k =? 8224)%N then (                                                               (* † function_call *)
         let (s1, top) := pop1 s in
         match top with
@@ -516,7 +553,7 @@ Section WithCalls.
     else
     XErr ENotCore.
 
-  Definition call_keys : str := [77; 70; 8224]%N.
+  Definition call_keys : str := [77; 70; 7777; 8224]%N.
   Definition elem_sem (k : N) (s : state) : xres state :=
     if mem k call_keys then elem_call k s else elem_pure k s.
 
@@ -614,15 +651,24 @@ Fixpoint lookup (n : str) (env : list (str * value)) : option value :=
   | [] => None
   | (k, v) :: r => if str_eqb k n then Some v else lookup n r
   end.
+(* a name inside a function: its own parameters first, then the globals *)
+Definition lookup_var (n : str) (s : state) : option value :=
+  match lookup n (locs s) with Some v => Some v | None => lookup n (vars s) end.
+
 Fixpoint assign (n : str) (v : value) (env : list (str * value)) : list (str * value) :=
   match env with
   | [] => [(n, v)]
   | (k, w) :: r => if str_eqb k n then (k, v) :: r else (k, w) :: assign n v r
   end.
 
-(* the parameters of a named function that the core covers: decimal counts *)
-Definition param_count (p : str) : option nat :=
-  if is_numeric p && all_ascii_digits p then Some (N.to_nat (dec_value p 0%N)) else None.
+(* the parameters of a named function that the core covers: a decimal count pops that many
+   items onto the function's stack; a name pops one item into the local VAR_<name>;
+   "*" is outside the core (its template reads `stack` before assigning it) *)
+Definition param_of (p : str) : option param :=
+  if all_ascii_digits p then Some (PNum (N.to_nat (dec_value p 0%N)))
+  else if str_eqb p [42%N] then None
+  else if name_ok (keep re_keep_fnparam p) then Some (PName (keep re_keep_fnparam p))
+  else None.
 
 (* ctx.default_arity = 1 (no flag 2 / 3) *)
 Definition lambda_arity (a : option Z) : Z := match a with Some z => z | None => 1 end.
@@ -656,7 +702,7 @@ Definition cfg_of (f : flag) : cfg :=
   end.
 
 Definition init_state (f : flag) (inputs : list value) : state :=
-  mkSt (match f with FlH => [VInt 100] | _ => [] end) [VInt 0] (inputs, O) [] O 2 (VInt 0) [] [] false.
+  mkSt (match f with FlH => [VInt 100] | _ => [] end) [VInt 0] (inputs, O) [] O 2 (VInt 0) [] [] [] false.
 
 (* vy_str(x) for the items of join *)
 Definition str_of (v : value) : option str := repr v.
@@ -722,8 +768,11 @@ Definition finish (app : app_t) (f : flag) (s : state) : xres state :=
    keeps every assignment (variable set, named loop variable, function definition) at the
    top level, where the name is a global of the exec namespace.  Outside the core and
    listed in the report: string / character / compressed literals, the ghost variable and
-   `_` names, break / recurse (X x), sort lambdas, named and `*` parameters, triadic
-   modifiers, elements outside `core_keys`. *)
+   `_` names, break / recurse (X x), `*` parameters, triadic modifiers, elements outside
+   `core_keys`.  `core_ok indef` is the part the evaluators themselves enforce (ENotCore);
+   `scope_ok` adds the static name discipline under which the machine's treatment of Python
+   scoping is right: a named parameter is a local of its function, a nested def reading it
+   would go through a closure cell, which the model does not have. *)
 Definition token_core (indef : bool) (t : token) : bool :=
   match tk t with
   | KNumber => all_ascii_digits (tv t)
@@ -734,7 +783,7 @@ Definition token_core (indef : bool) (t : token) : bool :=
   end.
 
 Definition arity_ok (a : option Z) : bool := match a with None => true | Some z => 0 <=? z end.
-Definition param_ok (p : str) : bool := match param_count p with Some _ => true | None => false end.
+Definition param_ok (p : str) : bool := match param_of p with Some _ => true | None => false end.
 
 Fixpoint core_ok (indef : bool) (x : struct) : bool :=
   match x with
@@ -749,7 +798,7 @@ Fixpoint core_ok (indef : bool) (x : struct) : bool :=
   | SFnDef n ps b =>
       negb indef && name_ok (keep re_keep_fndef n) && forallb param_ok ps && forallb (core_ok true) b
   | SLambda a b => arity_ok a && forallb (core_ok true) b
-  | SLamOp o b => match o with OpSort => false | _ => true end && forallb (core_ok true) b
+  | SLamOp _ b => forallb (core_ok true) b
   | SList its => forallb (forallb (core_ok true)) its
   | SMod1 m a => mem m mod1_keys && core_ok true a
   | SMod2 m a b => mem m mod2_keys && core_ok true a && core_ok true b
@@ -757,9 +806,39 @@ Fixpoint core_ok (indef : bool) (x : struct) : bool :=
   end.
 Definition core_ok_list (indef : bool) (l : list struct) : bool := forallb (core_ok indef) l.
 
-(* the parameter counts of a function definition *)
-Definition params_of (ps : list str) : option (list nat) := mapM param_count ps.
-Definition mk_named (ps : list nat) (body : list struct) : closure := mkClo true ps 0 None body.
+(* ---- names a nested def must not read: loc = the named parameters of the function whose body
+   this is (directly), hid = the named parameters of enclosing functions seen from inside a
+   nested def ---------------------------------------------------------------------------------- *)
+Fixpoint scope_ok (loc hid : list str) (x : struct) : bool :=
+  match x with
+  | SGeneric t => match tk t with KVarGet => negb (mem_str (tv t) hid) | _ => true end
+  | SFnCall n => negb (mem_str (keep re_keep_fncall n) hid)
+  | SIf bs => forallb (forallb (scope_ok loc hid)) bs
+  | SFor _ b => forallb (scope_ok loc hid) b
+  | SWhile c b => forallb (scope_ok loc hid) c && forallb (scope_ok loc hid) b
+  | SFnDef _ ps b =>
+      match mapM param_of ps with
+      | Some l => forallb (scope_ok (flat_map (fun p => match p with PName x => [x] | PNum _ => [] end) l) (hid ++ loc)) b
+      | None => false
+      end
+  | SLambda _ b => forallb (scope_ok [] (hid ++ loc)) b
+  | SLamOp _ b => forallb (scope_ok [] (hid ++ loc)) b
+  | SList its => forallb (forallb (scope_ok [] (hid ++ loc))) its
+  | SMod1 _ a => scope_ok [] (hid ++ loc) a
+  | SMod2 _ a b => scope_ok [] (hid ++ loc) a && scope_ok [] (hid ++ loc) b
+  | SMod3 _ a b c => scope_ok [] (hid ++ loc) a && scope_ok [] (hid ++ loc) b && scope_ok [] (hid ++ loc) c
+  | SBreak _ | SRecurse _ => true
+  end.
+
+(* what C01 quantifies over: whole programs *)
+Definition core_program (p : list struct) : bool :=
+  core_ok_list false p && forallb (scope_ok [] []) p.
+
+(* the parameters of a function definition *)
+Definition params_of (ps : list str) : option (list param) := mapM param_of ps.
+Definition mk_named (ps : list param) (body : list struct) : closure := mkClo true ps 0 None body.
+Definition param_names (ps : list param) : list str :=
+  flat_map (fun p => match p with PName x => [x] | PNum _ => [] end) ps.
 
 (* running a statement list: the first abnormal outcome ends it *)
 Fixpoint seq_run (step : struct -> state -> xres state) (p : list struct) (s : state) : xres state :=
